@@ -49,4 +49,30 @@ func init() {
 			c.Exhaustive = true
 		},
 	})
+	register(&PropertyDef{
+		ID: "C13", Level: "other",
+		Explanation: "E2 sibling rules on Circle: P1 (every type test on *Point has its *SimplePoint twin with equal arms), P2 (Contains and Intersects special-case the same operand kinds: Point, SimplePoint, Circle, Feature, Collection), M2 (circle/circle comparisons have the monotonicity and inclusiveness of the statement; point membership is exactly distance(point,centre) <= radius with no other condition), E1.A3c (Point/SimplePoint.Intersects(*Circle) delegates to Circle.Contains, so operand order cannot matter). NOT decided: any distance threshold, radius normalisation, quality of the polygon approximation.",
+		Run: func(p *Program, c *Check) {
+			p.ruleP1(c)
+			p.ruleP2(c)
+			p.ruleM2(c)
+			kinds := p.leafKinds(c, "E1")
+			var pts []*leafKind
+			for _, k := range kinds {
+				if k.Geom == "Point" {
+					pts = append(pts, k)
+				}
+			}
+			p.ruleA3(c, pts, false, true)
+		},
+	})
+	register(&PropertyDef{
+		ID: "C19", Level: "other",
+		Explanation: "E2.M1 mirrored branches of the hand-unrolled segment kernels (Raycast, IntersectsSegment): every if/else and if/else-if whose condition compares the same field of two points must be an exact mirror under the swap of those points, and every X statement must equal its Y twin; a one-sided operator edit is a contradiction between siblings. NOT decided: the arithmetic (on-segment ratio, nudge, slope, parametric test).",
+		Run: func(p *Program, c *Check) {
+			p.ruleM1(c, map[string]bool{"geometry.Segment.Raycast": true, "geometry.Segment.IntersectsSegment": true, "geometry.Segment.Rect": true})
+			p.ruleB1Searcher(c)
+			p.ruleB1(c, nil)
+		},
+	})
 }
